@@ -22,6 +22,8 @@ vars == <<objs, mem, l, cur, div, nops, nbad>>
 RawRows(d) == TLCEval([i \in 0 .. Tr[d].m - 1 |-> ToSet(Tr[d].rows[i + 1])])
 \* the logged root restricted to its columns (the padding is judged by TraceOps)
 RootAt(d) == Mat(Tr[d].m, Tr[d].n, [i \in 0 .. Tr[d].m - 1 |-> {c \in RawRows(d)[i] : c < Tr[d].n}])
+\* the view of operand o inside its logged root d
+RootAtN(d, o) == Sub(RootAt(d), o.r0, o.c0, o.m, o.n)
 ModelRoot(ob, ms, h) == LET r == ob[h].root IN Mat(ob[r].m, ob[r].n, ms[r])
 
 \* handles of a step in the order of the operands of its op event
@@ -29,10 +31,20 @@ StepHandles(s) ==
   CASE s.op \in {"add", "mul", "addmul"} -> <<s.c, s.a, s.b>>
     [] s.op \in {"concat", "stack"} -> <<s.d, s.a, s.b>>
     [] s.op \in {"copy", "transpose", "submatrix"} -> <<s.d, s.a>>
+    [] s.op \in {"equal"} -> <<s.a, s.b>>
+    [] s.op = "is_zero" -> <<s.a>>
     [] OTHER -> <<s.h>>
 
-Act(s) ==
+RelOK(s, ev) ==
+  CASE s.op \in {"ple", "pluq"} -> PLEOK(Value(s.h), RootAtN(ev.o[1].post, ev.o[1]), ev.p.P, ev.p.Q, ev.ret, IF s.op = "ple" THEN 1 ELSE 0)
+    [] s.op = "echelonize_nf" -> EchelonOK(Value(s.h), RootAtN(ev.o[1].post, ev.o[1]), ev.ret, 0)
+    [] OTHER -> TRUE
+\* ev: the op event of the step (relational steps take their outcome from it, after the predicate)
+Act(s, ev) ==
   CASE s.op = "new" -> New(s.h, s.m, s.n, s.seed)
+    \* relational steps: the recorded outcome is adopted; whether it satisfies the relation ON THE SPECIFICATION'S STATE is RelOK
+    [] s.op \in {"ple", "pluq", "echelonize_nf"} -> Put(s.h, RootAtN(ev.o[1].post, ev.o[1])) /\ UNCHANGED objs
+    [] s.op \in {"equal", "is_zero"} -> Observe(s.a, s.a)
     [] s.op = "win" -> Win(s.h, s.p, s.r0, s.c0, s.m, s.n)
     [] s.op = "free" -> Free(s.h)
     [] s.op = "add" -> Add3(s.c, s.a, s.b)
@@ -56,19 +68,21 @@ PStep ==
   /\ l <= N /\ Tr[l].e = "pstep" /\ l' = l + 1
   /\ LET s == Tr[l].s IN
      IF s.op \in {"win", "free"}
-     THEN Act(s) /\ cur' = [op |-> "none"] /\ UNCHANGED <<div, nops, nbad>>
+     THEN Act(s, [e |-> "none"]) /\ cur' = [op |-> "none"] /\ UNCHANGED <<div, nops, nbad>>
      ELSE cur' = s /\ UNCHANGED <<objs, mem, div, nops, nbad>>
 
 \* the op event of the pending step
 OpStep ==
   /\ l <= N /\ Tr[l].e = "op" /\ cur.op # "none" /\ l' = l + 1 /\ cur' = [op |-> "none"] /\ nops' = nops + 1
   /\ LET ev == Tr[l]  hs == StepHandles(cur) IN
-     /\ Act(cur)
+     /\ Act(cur, ev)
      /\ IF div THEN UNCHANGED <<div, nbad>>
         ELSE LET \* "new" creates its handle in this step: its pre-state is judged by TraceOps (fresh storage is zero)
                  preBad == cur.op # "new" /\ \E k \in 1 .. Len(hs) : ~Eq(RootAt(ev.o[k].pre), ModelRoot(objs, mem, hs[k]))
                  postBad == \E k \in 1 .. Len(hs) : ~Eq(RootAt(ev.o[k].post), ModelRoot(objs', mem', hs[k]))
+                 obsBad == (cur.op = "equal" /\ ev.ret # EqualSem(Value(cur.a), Value(cur.b))) \/ (cur.op = "is_zero" /\ ev.ret # IsZeroSem(Value(cur.a)))
                  f == (IF ev.die = 1 THEN {"unexpected_die"} ELSE {}) \cup (IF preBad THEN {"state_before_step"} ELSE {})
+                      \cup (IF obsBad THEN {"observer_on_state"} ELSE {}) \cup (IF ev.die = 0 /\ ~RelOK(cur, ev) THEN {"relation_on_state"} ELSE {})
                       \cup (IF postBad THEN {"state_after_step"} ELSE {})
              IN IF f = {} THEN UNCHANGED <<div, nbad>>
                 ELSE PrintT(<<"VFAIL", l, cur.op, f>>) /\ div' = TRUE /\ nbad' = nbad + 1
